@@ -218,10 +218,13 @@ CLAIMED["C13"] = dict(
          "compare_antisymm); GP_CASE_FOLD comparison is zero exactly when the Unicode full case foldings (Turkic option under tr/az) "
          "are equal, for all strings incl. U+0000 (compare_fold_zero_iff_spec, from fold1 = UCD C+F by kernel-checked table equality); "
          "every comparator handed to qsort is a total preorder (comparator_total_preorder) and sorting by it gives a permutation that "
-         "is non-decreasing / non-increasing under the selected comparison for any number of strings (sort_sorted_perm).",
+         "is non-decreasing / non-increasing under the selected comparison for any number of strings (sort_sorted_perm); the byte-indexed "
+         "loop the C code runs without fold / collation (decode at the same byte position of both operands, end on the byte lengths) "
+         "decides exactly as the code point comparison on well-formed UTF-8 (cmpBytes_encoding, plain_compare_is_codepoint_order) - "
+         "the driver executes that byte loop.",
     note="Trusted: qsort, wcscoll (C.UTF-8 only - no other locale is installed; collation cannot see past U+0000, such inputs are "
-         "not generated under GP_COLLATE), the extractor, harness c12.c. Not proved: 'equivalently by bytes' (UTF-8 preserves code "
-         "point order) - the correspondence compares with code point order only.",
+         "not generated under GP_COLLATE), the extractor, harness c12.c. Not proved: that plain memcmp order equals code point "
+         "order (the library does not use memcmp here).",
     ref="6 C13")
 
 CLAIMED["C15"] = dict(
